@@ -233,15 +233,45 @@ def search(ctx, broken):
 
 
 def replay(ctx, obj):
+    """re-run the recorded calls on the current build and RE-JUDGE them with Model/TimeJudge.v: 1 = still a violation,
+    0 = does not reproduce, 2 = nothing could be executed"""
     exe, msg = common.build_harness("c12_time", ["c12_time.c"], whitebox=True)
-    bad = 0
+    if exe is None:
+        print("harness build failed:", msg)
+        return 2
+    Z = lambda x: "(%d)" % x
+    cT, cW = [], []
     for f in obj.get("failures", []):
         if f.get("call") == "dispatch_time":
             r = common.run([exe], input="T %d %d\n" % tuple(f["args"]))
-        else:
+            now = int(r.stdout.strip().split()[0]) if r.returncode == 0 and r.stdout.strip() else None
+            cT.append((tuple(f["args"]), now, f.get("impl")))
+        elif f.get("call") == "dispatch_walltime":
             r = common.run([exe], input="W %d %d %d\n" % tuple(f["args"]))
-        print("%s%s -> %s (recorded %s)" % (f["call"], tuple(f["args"]), r.stdout.strip(), f.get("impl")))
-        bad += 1
+            now = int(r.stdout.strip().split()[0]) if r.returncode == 0 and r.stdout.strip() else None
+            cW.append((tuple(f["args"]), now, f.get("impl")))
+        else:
+            print("recorded (not re-executable one by one; run the full check):", f.get("what"))
     for b in obj.get("broken", []):
-        print("no longer checks:", b)
-    return 1 if (bad or obj.get("broken")) else 0
+        print("no longer checks (only a full ./check C12 re-establishes it):", b)
+    if not cT and not cW:
+        return 2 if obj.get("broken") or obj.get("failures") else 0
+    if any(n is None for (_, n, _) in cT + cW):
+        print("the harness did not answer")
+        return 2
+    body = ["Definition k0 : clocks := {| now_up := 5000; now_mono := 7000; now_wall := 1700000000000000000 |}.",
+            "Definition cT : list (Z*Z*Z) := [%s]." % "; ".join("(%s,%s,%s)" % (Z(a), Z(b), Z(n)) for ((a, b), n, _) in cT),
+            "Definition cW : list (Z*Z*Z*Z) := [%s]." % "; ".join("(%s,%s,%s,%s)" % (Z(a), Z(b), Z(c), Z(n)) for ((a, b, c), n, _) in cW),
+            "Eval vm_compute in map (fun '(i,d,r) => b2z (judge_time k0 i d r)) cT.",
+            "Eval vm_compute in map (fun '(s,n,d,r) => b2z (judge_walltime k0 s n d r)) cW."]
+    ok, vals, raw = driver.coq_eval("c12_replay", ["Word", "Gen_consts", "Gen_time", "Time", "TimeJudge"], "\n".join(body) + "\n")
+    if not ok or len(vals) != 2:
+        print("the judge could not be evaluated:", raw[-600:])
+        return 2
+    jT, jW = [driver.ints(v) for v in vals]
+    bad = 0
+    for ((args, now, rec), j) in list(zip(cT, jT)) + list(zip(cW, jW)):
+        verdict = "still violates the property" if j != 1 else "does not reproduce"
+        print("%s -> %s now (recorded %s): %s" % (args, now, rec, verdict))
+        bad += (j != 1)
+    return 1 if bad else 0
